@@ -447,13 +447,19 @@ func gomaxprocsFor(shards int) string {
 // prints the verdict lines and returns the exit status.
 func Finish(c *Check, e *Env, total *Result, failed []string) int {
 	known := loadKnown(e.Verif)
-	os.MkdirAll(filepath.Join(e.Verif, "replays"), 0o755)
-	if old, _ := filepath.Glob(filepath.Join(e.Verif, "replays", c.ID+"-*.json")); len(old) > 0 {
+	evDir := filepath.Join(e.Verif, "evidence")
+	rpDir := filepath.Join(e.Verif, "replays")
+	if d := os.Getenv("VERIF_EVIDENCE_DIR"); d != "" {
+		// runs against seeded changes must not overwrite the committed evidence
+		evDir, rpDir = d, filepath.Join(d, "replays")
+	}
+	os.MkdirAll(rpDir, 0o755)
+	if old, _ := filepath.Glob(filepath.Join(rpDir, c.ID+"-*.json")); len(old) > 0 {
 		for _, p := range old {
 			os.Remove(p)
 		}
 	}
-	os.MkdirAll(filepath.Join(e.Verif, "evidence"), 0o755)
+	os.MkdirAll(evDir, 0o755)
 	sort.SliceStable(total.Violations, func(i, j int) bool { return total.Violations[i].Key < total.Violations[j].Key })
 	knownHit := map[string]int{}
 	knownWhat := map[string]string{}
@@ -483,7 +489,7 @@ func Finish(c *Check, e *Env, total *Result, failed []string) int {
 	for i := range fresh {
 		v := &fresh[i]
 		sum := sha256.Sum256([]byte(v.Key + "\x00" + v.Desc))
-		v.Path = filepath.Join(e.Verif, "replays", fmt.Sprintf("%s-%s.json", c.ID, hex.EncodeToString(sum[:6])))
+		v.Path = filepath.Join(rpDir, fmt.Sprintf("%s-%s.json", c.ID, hex.EncodeToString(sum[:6])))
 		b, _ := json.MarshalIndent(v, "", " ")
 		os.WriteFile(v.Path, b, 0o644)
 		if shown < 25 {
@@ -550,7 +556,7 @@ func Finish(c *Check, e *Env, total *Result, failed []string) int {
 		"repo":        e.Repo,
 	}
 	b, _ := json.MarshalIndent(ev, "", " ")
-	evPath := filepath.Join(e.Verif, "evidence", c.ID+".json")
+	evPath := filepath.Join(evDir, c.ID+".json")
 	if err := os.WriteFile(evPath, b, 0o644); err != nil {
 		fmt.Fprintln(os.Stderr, "harness:", err)
 		return 2
